@@ -6,6 +6,7 @@ import (
 	"reflect"
 	"unsafe"
 
+	"src.elv.sh/pkg/diag"
 	"src.elv.sh/pkg/eval/errs"
 	"src.elv.sh/pkg/eval/vals"
 	"src.elv.sh/pkg/persistent/hash"
@@ -168,6 +169,12 @@ func (b *goFn) Repr(int) string {
 var errorType = reflect.TypeOf((*error)(nil)).Elem()
 
 // Call calls the implementation using reflection.
+var (
+	callableType  = reflect.TypeOf((*Callable)(nil)).Elem()
+	exceptionType = reflect.TypeOf((*Exception)(nil)).Elem()
+	showerType    = reflect.TypeOf((*diag.Shower)(nil)).Elem()
+)
+
 func (b *goFn) Call(f *Frame, args []any, opts map[string]any) error {
 	if b.variadicArg != nil {
 		if len(args) < len(b.normalArgs) {
@@ -219,6 +226,12 @@ func (b *goFn) Call(f *Frame, args []any, opts map[string]any) error {
 		err := vals.ScanToGo(arg, ptr.Interface())
 		if err != nil {
 			return WrongArgType{i, err}
+		}
+		if arg == nil && (typ == callableType || typ == exceptionType || typ == showerType) {
+			// ScanToGo stores $nil as a nil interface value, but functions
+			// taking a function or an exception don't expect nil and would
+			// dereference it.
+			return WrongArgType{i, fmt.Errorf("wrong type: need !!%s, got nil", typ)}
 		}
 		in = append(in, ptr.Elem())
 	}
